@@ -1,6 +1,8 @@
 package sim
 
 import (
+	"os"
+	"runtime"
 	"bytes"
 	"fmt"
 	"net"
@@ -350,6 +352,19 @@ func (w *SrvWorld) checkE2E() {
 			}
 			if w.partitioned(wr.T, wr.T+2*sec) {
 				continue // datagrams sent into a partition are lost; what counts is that traffic flows again after it
+			}
+			if !wr.Done && w.P.Cfg.Listener == "tcp" && len(w.K.StallIntervals()) == 0 && w.K.Now()-wr.T > 30*sec && !w.wedgeReported {
+				// a WriteTo may wait for a stream's window; it may not wait for ever: 30 s after the
+				// call nothing in the plan holds anything up any more
+				w.wedgeReported = true
+				if os.Getenv("VERIF_DUMP") != "" {
+					buf := make([]byte, 1<<21)
+					os.Stderr.Write(buf[:runtime.Stack(buf, true)])
+				}
+				for _, pr := range []string{"C18", "C14"} {
+					w.K.Violate(&Violation{Property: pr, Class: "client-wedged", Key: kv("call", "WriteTo"),
+						Detail: fmt.Sprintf("WriteTo(%s) called at %d ns has not returned %d s later: client and server each wait to write on the one stream between them and neither reads", wr.Peer, wr.T, (w.K.Now()-wr.T)/sec)})
+				}
 			}
 			if wr.ToClient != "" {
 				// client -> own relay -> the other client's relay -> the other client: arrives if the
